@@ -229,60 +229,45 @@ def reversed_in_atom(v) -> bool:
         _clear()
         return bool(parse_marker(t2).evaluate(dict(env2))) == bool(Marker(t2).evaluate(dict(env2)))
     tree = case.get("tree")
-    if not tree or tree[0] not in ("and", "or") or tree[1][0] != "m" or tree[2][0] != "m":
+    if not tree:
         return False
-    ren = altsem.rename_reversed_in([tree[1][1], tree[2][1]], env)
+    leaves = []
+
+    def collect(t):
+        if t[0] == "m":
+            leaves.append(t[1])
+        elif t[0] in ("and", "or"):
+            collect(t[1])
+            collect(t[2])
+        elif t[0] not in ("any", "empty"):
+            raise ValueError(t[0])
+
+    try:
+        collect(tree)
+    except ValueError:
+        return False
+    ren = altsem.rename_reversed_in(leaves, env)
     if ren is None:
         return False
-    (a2, b2), env2 = ren
+    texts2, env2 = ren
+    mapping = dict(zip(leaves, texts2))
     _clear()
-    A, B = parse_marker(a2), parse_marker(b2)
-    R = (A & B) if tree[0] == "and" else (A | B)
-    va, vb = bool(A.evaluate(dict(env2))), bool(B.evaluate(dict(env2)))
-    exp = (va and vb) if tree[0] == "and" else (va or vb)
+    from dep_logic.markers import AnyMarker, EmptyMarker
+
+    def build(t):
+        """(library value, truth value of the unmerged text) for the renamed tree"""
+        if t[0] == "m":
+            t2 = mapping[t[1]]
+            return parse_marker(t2), altsem.text_eval(t2, env2, "pep")
+        if t[0] == "any":
+            return AnyMarker(), True
+        if t[0] == "empty":
+            return EmptyMarker(), False
+        (a, va), (b, vb) = build(t[1]), build(t[2])
+        return ((a & b), (va and vb)) if t[0] == "and" else ((a | b), (va or vb))
+
+    R, exp = build(tree)
     return bool(R.evaluate(dict(env2))) == exp
-
-
-@predicate
-def one_child_compound(v) -> bool:
-    """F16: union_simplify / intersect_simplify return `AnyMarker & MultiMarker(one)` /
-    `EmptyMarker | MarkerUnion(one)` without normalising, so a conjunction/disjunction with exactly
-    one child escapes.  Explained iff the ONLY defect of the shape is compounds with exactly one
-    child, i.e. unwrapping every such node yields a normal form."""
-    from dep_logic.markers import MarkerUnion, MultiMarker
-
-    from .markermon import nf_defect
-
-    live = v.get("_live") or {}
-    m = live.get("result")
-    if m is None:
-        return False
-    diag = live.get("diag") or {}
-    if not (diag.get("union_simplify") or diag.get("intersect_simplify")):
-        return False  # the un-normalised shape did not come out of the two simplify helpers
-
-    found = [0]
-
-    def unwrap(x):
-        if isinstance(x, (MultiMarker, MarkerUnion)):
-            kids = [unwrap(c) for c in x.markers]
-            if len(kids) == 1:
-                found[0] += 1
-                return kids[0]
-            # rebuild without the flattening constructor touching anything else
-            y = object.__new__(type(x))
-            flat = []
-            for k in kids:
-                if type(k) is type(x):
-                    flat.extend(k.markers)  # a one-child wrapper may have hidden a same-kind child
-                else:
-                    flat.append(k)
-            object.__setattr__(y, "markers", tuple(flat))
-            return y
-        return x
-
-    u = unwrap(m)
-    return found[0] > 0 and nf_defect(u) is None
 
 
 def _f4_c13(x, y) -> bool:
@@ -322,3 +307,14 @@ def _f4_c13(x, y) -> bool:
         return False
     envs = MW.environments(random.Random(0), [x, y], 60)
     return all(bool(x2.evaluate(dict(e))) == bool(y2.evaluate(dict(e))) for e in envs)
+
+
+@predicate
+def presentation_only(v) -> bool:
+    """F17: the four lru_caches key on an equality that ignores the operand order of an atom and the
+    order of values inside a grouped ==/!= atom, and hand back the first-seen object, so the *text*
+    of a result can depend on history.  Explained iff warm and cold results have identical
+    evaluation vectors, the same class, and compare == under the library's own equality.  Anything
+    that evaluates differently, or is != , is a violation."""
+    live = v.get("_live") or {}
+    return live.get("semantic") is False and live.get("same_type") is True and live.get("lib_equal") is True
